@@ -334,6 +334,11 @@ BOUNDED_CONFIGS = [
      "scripts": [[["sync", 400]], [["async", 10], ["sync_empty"]]]},
     {"config": {"max_batch_size_bytes": 250, "max_batch_operations": 5, "max_batch_time_seconds": 0.25},
      "scripts": [[["async", 10], ["sync", 600]], [["async", 10]]]},
+    # a failing backend call racing with a second producer that is between "checked the failed flag" and "enqueued"
+    {"config": {"max_batch_size_bytes": 300, "max_batch_operations": 2, "max_batch_time_seconds": 0.0},
+     "scripts": [[["async", 20]], [["sync", 20]]], "fail_call": 0},
+    {"config": {"max_batch_size_bytes": 300, "max_batch_operations": 1, "max_batch_time_seconds": 0.05},
+     "scripts": [[["sync", 20]], [["sync", 30]], [["async", 10]]], "fail_call": 0},
 ]
 
 
